@@ -83,8 +83,88 @@ DAMAGES = ["h0_offdiag", "h0_undecided", "shared1", "shared2", "mask_equal", "bi
            "fd_array_blocks", "solver_single", "unsupported_type", "cross_overlap", "cross_overlap_lr"]
 
 
+# structural damages: one per rejection branch of the front end that needs a special container,
+# malformed (right, left) entries or the implicit mode (incomplete eigenvectors)
+STRUCT = dict(
+    keys_noncommutative=dict(container="mono_noncomm"),
+    keys_not_monomial=dict(container="mono_notmono"),
+    symbols_missing=dict(container="expr_missing", fmt="sympy"),
+    mask_not_array=dict(listmask=True),
+    blocked_and_indices=dict(container="blocks", keep_indices=True),
+    blocks_nonsquare=dict(container="series_nonsquare"),
+    ragged0=dict(container="blocks_ragged0", min_blocks=2),
+    ragged1=dict(container="blocks_ragged1"),
+    invalid_operator=dict(container="series_objects"),
+    pair_len3=dict(vec="len3", herm=False),
+    pair_shape_dim=dict(vec="shape_dim", herm=False),
+    pair_shape_count=dict(vec="shape_count", herm=False),
+    implicit_blocked=dict(implicit=True, container="blocks", numeric=True),
+    implicit_symbolic=dict(implicit=True, fmt="sympy"),
+    implicit_nonherm_kpm=dict(implicit=True, herm=False, kw=dict(direct_solver=False), numeric=True),
+    implicit_dim=dict(implicit=True, vec="extra_row", numeric=True),
+    implicit_types=dict(implicit=True, vec="sparse", numeric=True),
+    implicit_fd=dict(implicit=True, numeric=True, herm=True, fd_last=True),
+)
+# accepted inputs that exercise further branches (some with a warning the oracle insists on)
+NOTES = dict(
+    mono_ok=dict(container="mono"),
+    blocks_ok=dict(container="blocks"),
+    h0_block_nondiagonal=dict(nondiag=True),                     # UserWarning "Cannot confirm ... diagonal"
+    implicit_ok=dict(implicit=True, numeric=True, herm=True,     # DeprecationWarning for atol / eps
+                     kw=dict(solver_options=dict(atol=1e-10, eps=0.05))),
+)
+EXPECT_WARNING = dict(h0_block_nondiagonal="UserWarning", implicit_ok="DeprecationWarning", h0_undecided="UserWarning")
+
+
+def make_struct_vcase(rng, name, fmt):
+    spec = dict(STRUCT.get(name) or NOTES[name])
+    fmt = spec.get("fmt") or fmt
+    if spec.get("numeric") and fmt == "sympy":
+        fmt = rng.choice(["dense", "sparse"])
+    herm = spec.get("herm")
+    if herm is None:
+        herm = rng.random() < 0.8
+    min_blocks = max(spec.get("min_blocks", 1), 2 if spec.get("implicit") else 1)
+    c = copy.deepcopy(base_case(rng, fmt=fmt, min_blocks=min_blocks, hermitian=herm,
+                                need_big_block=bool(spec.get("nondiag") or spec.get("listmask"))))
+    bl = blocks_of(c)
+    nb = len(bl)
+    v = dict(case=c, designation="indices", container=spec.get("container", "dict"), solver=None, damages=[],
+             fd_override=None, extra_indices=False, pairs=False, implicit=bool(spec.get("implicit")),
+             vec=spec.get("vec"), kw=spec.get("kw") or {}, note=name if name in NOTES else None)
+    if v["container"].startswith("blocks") or v["container"].startswith("series_"):
+        v["designation"] = "indices" if spec.get("keep_indices") else "none"
+    if spec.get("vec") or spec.get("implicit"):
+        v["designation"] = "eigvecs"
+    if spec.get("implicit"):
+        c["fully"] = [nb - 1] if spec.get("fd_last") else None
+    if spec.get("vec") in ("len3", "shape_dim", "shape_count"):
+        c["fully"] = None
+    if v["container"] in ("series_nonsquare", "series_objects", "blocks_ragged0", "blocks_ragged1"):
+        c["fully"] = None
+    if v["container"] in ("expr_missing", "mono", "mono_noncomm", "mono_notmono") and unused_params(v):
+        return None
+    if spec.get("listmask"):
+        p = rng.choice([b for b in range(nb) if len(bl[b]) >= 2])
+        n0 = len(bl[p])
+        v["fd_override"] = dict(listmask={str(p): [[0] * n0 for _ in range(n0)]})
+        c["fully"] = None
+    if spec.get("nondiag"):
+        p = rng.choice([b for b in range(nb) if len(bl[b]) >= 2])
+        a, b = bl[p][0], bl[p][1]
+        set_entry(c, zkey(c), a, b, G(Fr(1, 2)), herm=True)
+        if not c["hermitian"]:
+            set_entry(c, zkey(c), b, a, G(Fr(1, 2)), herm=False)
+        c["fully"] = None if isinstance(c["fully"], dict) else c["fully"]
+    if name in STRUCT:
+        v["damages"].append(dict(kind=name))
+    return v
+
+
 def make_vcase(rng, damages, fmt=None):
     """build a vcase carrying the given damages (list of names)."""
+    if len(damages) == 1 and (damages[0] in STRUCT or damages[0] in NOTES):
+        return make_struct_vcase(rng, damages[0], fmt)
     hermitian = True
     if "legacy_nonherm" in damages or "cross_overlap_lr" in damages:
         hermitian = False
@@ -104,7 +184,7 @@ def make_vcase(rng, damages, fmt=None):
                       hermitian=hermitian, need_big_block=need_big)
     c = copy.deepcopy(c)
     v = dict(case=c, designation="indices", container="dict", solver=None, damages=[], fd_override=None,
-             extra_indices=False, pairs=False)
+             extra_indices=False, pairs=False, implicit=False, vec=None, kw={}, note=None)
     bl = blocks_of(c)
     nb = len(bl)
     if not damages and rng.random() < 0.35:
@@ -305,6 +385,11 @@ def eigvec_matrices(v):
                 L[d["z"]][idx.index(d["a"])] = G(Fr(1, 2))
         Rs.append(M)
         Ls.append(L if L is not None else M)
+    if v.get("implicit"):
+        Rs, Ls = Rs[:-1], Ls[:-1]      # the last block is left implicit
+    if v.get("vec") == "extra_row":
+        Rs = [M + [[G(0)] * len(M[0])] for M in Rs]
+        Ls = Rs
     return Rs, Ls
 
 
@@ -332,12 +417,25 @@ def build_call(v):
         Rs, Ls = eigvec_matrices(v)
         cv = implrun.to_sympy if fmt == "sympy" else (lambda M: implrun.to_numpy(M, real_if_possible=False) if uses_lr(v) else implrun.to_numpy(M))
         vecs = [cv(M) for M in Rs]
+        if v.get("vec") == "sparse":
+            vecs = [sp.csr_array(x) for x in vecs]
+        elif v.get("vec") == "len3":
+            vecs = [(vecs[0], vecs[0], vecs[0])] + vecs[1:]
+        elif v.get("vec") == "shape_dim":
+            L0 = np.vstack([vecs[0], np.zeros((1, vecs[0].shape[1]))]) if fmt != "sympy" else vecs[0].col_join(sympy.zeros(1, vecs[0].shape[1]))
+            vecs = [(vecs[0], L0)] + vecs[1:]
+        elif v.get("vec") == "shape_count":
+            L0 = np.hstack([vecs[0], vecs[0][:, :1]]) if fmt != "sympy" else vecs[0].row_join(vecs[0][:, :1])
+            vecs = [(vecs[0], L0)] + vecs[1:]
         if uses_lr(v):
             vecs = [(cv(R), cv(L)) for R, L in zip(Rs, Ls)]
         elif v["pairs"]:
             vecs = [(vecs[0], vecs[0])] + vecs[1:]
         kw["subspace_eigenvectors"] = vecs
-    if v["fd_override"] is not None:
+    kw.update(copy.deepcopy(v.get("kw") or {}))
+    if v["fd_override"] is not None and "listmask" in v["fd_override"]:
+        kw["fully_diagonalize"] = {int(k): m for k, m in v["fd_override"]["listmask"].items()}   # lists, not arrays
+    elif v["fd_override"] is not None:
         kw["fully_diagonalize"] = np.array(v["fd_override"]["array"], dtype=bool)
     else:
         kw["fully_diagonalize"] = implrun.build_fully(c)
@@ -361,6 +459,55 @@ def build_call(v):
         kw["symbols"] = list(syms)
     elif v["container"] == "unsupported":
         ham = 3.5
+    elif v["container"] == "expr_missing":
+        syms = list(sympy.symbols("x0:%d" % (c["nparam"] + 1), real=True))
+        expr = sympy.zeros(len(c["sub"]))
+        for o, M in H.items():
+            mono = sympy.Integer(1)
+            for s_, e in zip(syms, o):
+                mono = mono * s_ ** e
+            expr = expr + mono * M
+        ham = sympy.Matrix(expr)
+        kw["symbols"] = syms            # the last symbol does not occur in the Hamiltonian
+    elif v["container"].startswith("mono"):
+        syms = list(sympy.symbols("x0:%d" % c["nparam"], real=True))
+        if v["container"] == "mono_noncomm":
+            syms[0] = sympy.Symbol("x0", commutative=False)
+        ham = {}
+        for o, M in H.items():
+            key = sympy.Integer(1)
+            for s_, e in zip(syms, o):
+                key = key * s_ ** e
+            if v["container"] == "mono_notmono" and sum(o) == 1 and o[0] == 1:
+                key = 2 * key           # a numerical prefactor: not a monomial of the symbols
+            ham[key] = M
+    elif v["container"].startswith("blocks"):
+        bl = blocks_of(c)
+        nb = len(bl)
+        conv = (lambda B: implrun.to_sympy(B)) if fmt == "sympy" else ((lambda B: sp.csr_array(implrun.to_numpy(B))) if fmt == "sparse" else implrun.to_numpy)
+        ham = {}
+        for k, M in c["H"].items():
+            Md = gq.dec(M)
+            ham[gen.unkey(k)] = [[conv(gq.block(Md, bl[i], bl[j])) for j in range(nb)] for i in range(nb)]
+        zero = (0,) * c["nparam"]
+        if v["container"] == "blocks_ragged0":
+            ham[zero][-1] = ham[zero][-1][:-1]
+        if v["container"] == "blocks_ragged1":
+            o1 = sorted(o for o in ham if sum(o) == 1)[0]
+            ham[o1] = ham[o1][:-1]
+    elif v["container"] in ("series_nonsquare", "series_objects"):
+        from pymablock.series import BlockSeries
+        bl = blocks_of(c)
+        nb = len(bl)
+        zero = (0,) * c["nparam"]
+        if v["container"] == "series_objects":
+            ham = BlockSeries(data={(0, 0) + zero: object()}, shape=(1, 1), n_infinite=c["nparam"])
+        else:
+            H0 = gq.dec(c["H"][zkey(c)])
+            data = {(i, i) + zero: implrun.to_numpy(gq.block(H0, bl[i], bl[i])) for i in range(nb)}
+            ham = BlockSeries(data=data, shape=(nb, nb + 1), n_infinite=c["nparam"])
+    if v["designation"] == "none":
+        kw.pop("subspace_indices", None)
     return ham, kw
 
 
@@ -374,12 +521,13 @@ def observe(v, upto=2, check_finite=False):
     from pymablock import block_diagonalize
     c = v["case"]
     ham, kw = build_call(v)
-    with warnings.catch_warnings():
-        warnings.simplefilter("ignore")
+    with warnings.catch_warnings(record=True) as wlist:
+        warnings.simplefilter("always")
         try:
             res = block_diagonalize(ham, **kw)
         except Exception as e:  # noqa: BLE001
             return dict(verdict=exn_name(e), stage="def", msg=str(e)[:100])
+        seen = sorted({w.category.__name__ for w in wlist})
         nb = res[0].shape[0]
         finite = True
         for n in range(upto + 1):
@@ -390,10 +538,10 @@ def observe(v, upto=2, check_finite=False):
                             try:
                                 val = S[(i, j) + tuple(o)]
                             except Exception as e:  # noqa: BLE001
-                                return dict(verdict=exn_name(e), stage=n, msg=str(e)[:100])
+                                return dict(verdict=exn_name(e), stage=n, msg=str(e)[:100], warnings=seen)
                             if check_finite:
                                 finite = finite and value_finite(val)
-    return dict(verdict="accept", stage=None, finite=finite)
+    return dict(verdict="accept", stage=None, finite=finite, warnings=seen)
 
 
 def value_finite(val):
@@ -438,7 +586,18 @@ def abstract(v):
     herm = c["hermitian"]
     E = energies(c)
     H0 = gq.dec(c["H"][zkey(c)])
-    fmt = dict(dict="FDictTuple", list="FList", expr="FSympyExpr", unsupported="FUnsupported")[v["container"]]
+    cont = v["container"]
+    fmt = dict(dict="FDictTuple", list="FList", expr="FSympyExpr", unsupported="FUnsupported", expr_missing="FSympyExpr",
+               mono="FDictMonomial", mono_noncomm="FDictMonomial", mono_notmono="FDictMonomial",
+               blocks="FDictTuple", blocks_ragged0="FDictTuple", blocks_ragged1="FDictTuple",
+               series_nonsquare="FBlockSeries", series_objects="FBlockSeries")[cont]
+    preblocked = cont.startswith("blocks") or cont.startswith("series_")
+    keys = dict(mono_noncomm="KeysNonCommutative", mono_notmono="KeysNotMonomial").get(cont, "KeysOk")
+    implicit = bool(v.get("implicit"))
+    if cont == "series_objects":
+        bl, nb, dim = [[0]], 1, 1
+        H0 = [[G(1)]]
+        E = [G(1)]
     arity = {None: "None", "two": "(Some 2)", "one": "(Some 1)"}[v["solver"]]
     # fully_diagonalize
     def mask_info(b, m):
@@ -447,7 +606,9 @@ def abstract(v):
         sym = all(m[x][y] == m[y][x] for x in range(n) for y in range(n))
         hits = any(m[x][y] and E[bl[b][x]] == E[bl[b][y]] for x in range(n) for y in range(n)) if b < nb and len(bl[b]) == n else False
         return cmask(True, sym, hits)
-    if v["fd_override"] is not None:
+    if v["fd_override"] is not None and "listmask" in v["fd_override"]:
+        fd = "(FdDict [%s])" % "; ".join("(%d, %s)" % (int(k), cmask(False, True, False)) for k in v["fd_override"]["listmask"])
+    elif v["fd_override"] is not None:
         arr = v["fd_override"]["array"]
         n_el = sum(len(r) for r in arr)
         truth = "None" if n_el > 1 else "(Some %s)" % cb(bool(arr[0][0]))
@@ -461,25 +622,33 @@ def abstract(v):
     # eigenvectors
     if v["designation"] == "eigvecs":
         Rs, Ls = eigvec_matrices(v)
-        R = [[x for M in Rs for x in (M[r])] for r in range(dim)]
-        L = [[x for M in Ls for x in (M[r])] for r in range(dim)]
+        rows = len(Rs[0])
+        R = [[x for M in Rs for x in (M[r])] for r in range(rows)]
+        L = [[x for M in Ls for x in (M[r])] for r in range(rows)]
         ov = gq.mul(gq.adj(L), R)
         offs, o = [], 0
         for M in Rs:
             offs.append(range(o, o + len(M[0])))
             o += len(M[0])
-        within = all(gq.eq(gq.block(ov, offs[i], offs[i]), gq.eye(len(offs[i]))) for i in range(nb))
-        cross = all(gq.is_zero(gq.block(ov, offs[i], offs[j])) for i in range(nb) for j in range(nb) if i != j)
+        ne = len(Rs)
+        within = all(gq.eq(gq.block(ov, offs[i], offs[i]), gq.eye(len(offs[i]))) for i in range(ne))
+        cross = all(gq.is_zero(gq.block(ov, offs[i], offs[j])) for i in range(ne) for j in range(ne) if i != j)
         kind = "VecSympy" if c["fmt"] == "sympy" else "VecNumpy"
-        ev = "(Some (mkEigvecs %s true true %s %s %s true true %s))" % (
-            cb(v["pairs"] or uses_lr(v)), kind, "Yes" if within else "No", "Yes" if cross else "No", cb(c["fmt"] != "sympy"))
-        # what the later tests see: the projected zeroth order L^† H_0 R (block-ordered)
-        H0 = gq.mul(gq.mul(gq.adj(L), H0), R)
-        bl = [list(r) for r in offs]
-        E = [H0[k][k] for k in range(len(H0))]
+        vec = v.get("vec")
+        ev = "(Some (mkEigvecs %s %s %s %s %s %s %s %s %s))" % (
+            cb(v["pairs"] or uses_lr(v) or vec in ("len3", "shape_dim", "shape_count")), cb(vec != "len3"),
+            cb(vec not in ("shape_dim", "shape_count")), kind, "Yes" if within else "No", "Yes" if cross else "No",
+            cb(not implicit), cb(vec != "extra_row"), cb(c["fmt"] != "sympy" and vec != "sparse"))
+        if not implicit:
+            # what the later tests see: the projected zeroth order L^† H_0 R (block-ordered)
+            H0 = gq.mul(gq.mul(gq.adj(L), H0), R)
+            bl = [list(r) for r in offs]
+            E = [H0[k][k] for k in range(len(H0))]
     else:
         ev = "None"
     indices = v["designation"] == "indices" or v["extra_indices"]
+    if cont == "series_objects":
+        indices = False
     # zeroth-order blocks
     und = {(d["a"], d["b"]) for d in v["damages"] if d["kind"] == "h0_undecided"}
     off = {}
@@ -492,10 +661,13 @@ def abstract(v):
             elif any((a in bl[i] and b in bl[j]) or (a in bl[j] and b in bl[i]) for a, b in und):
                 off[(i, j)] = "BUndecided"
     dz = [block_is_zero(H0, bl[i], bl[i]) for i in range(nb)]
+    if implicit:
+        dz[-1] = False      # the implicit block is a LinearOperator, never the sentinel zero
+        shares = None
     diag_zero = "(fun i => match i with %s | _ => false end)" % " ".join("| %d => %s" % (i, cb(z)) for i, z in enumerate(dz))
     shares = {}
-    for i in range(nb):
-        for j in range(nb):
+    for i in range(nb - (1 if implicit else 0)):
+        for j in range(nb - (1 if implicit else 0)):
             if i != j and any(E[a] == E[b] for a in bl[i] for b in bl[j]):
                 shares[(i, j)] = "true"
     # Taylor coefficients (expression format): Hermitian or not
@@ -506,9 +678,20 @@ def abstract(v):
             if not gq.eq(M, gq.adj(M)):
                 bad_terms.append(gen.unkey(k))
     th = "(fun n => %s)" % ("".join("if lb n [%s] then No else " % "; ".join(map(str, t)) for t in bad_terms) + "Yes")
-    term = "(mkCall %s %d %s KeysOk %s %s true %s false true %s %s %s %d %s %s false %s %s)" % (
-        fmt, c["nparam"], cb(v["container"] == "expr" and bool(unused_params(v))), cb(herm), arity, fd, ev, cb(indices), cb(c["fmt"] == "sympy"), nb,
-        fun2(off, "BZero"), diag_zero, fun2(shares, "false"), th)
+    ragged = "(fun _ => false)"
+    if cont == "blocks_ragged0":
+        ragged = "(fun n => lb n [%s])" % "; ".join("0" for _ in range(c["nparam"]))
+    if cont == "blocks_ragged1":
+        o1 = sorted(gen.unkey(k) for k in c["H"] if sum(gen.unkey(k)) == 1)[0]
+        ragged = "(fun n => lb n [%s])" % "; ".join(map(str, o1))
+    direct = (v.get("kw") or {}).get("direct_solver", True)
+    if cont == "series_nonsquare":
+        indices = False
+    term = "(mkCall %s %d %s %s %s %s %s %s %s %s %s %s %s %d %s %s false %s %s %s %s)" % (
+        fmt, c["nparam"] + (1 if cont == "expr_missing" else 0),
+        cb(cont == "expr_missing" or (cont == "expr" and bool(unused_params(v)))), keys, cb(herm), arity, cb(direct), fd,
+        cb(preblocked), cb(cont != "series_nonsquare"), ev, cb(indices), cb(c["fmt"] == "sympy"), nb,
+        fun2(off, "BZero"), diag_zero, fun2(shares, "false"), th, cb(cont == "series_objects"), ragged)
     # schedule of uses: by construction of the damages
     sched = {1: [], 2: []}
     for d in v["damages"]:
@@ -566,7 +749,7 @@ def stream(rng, n):
               ["mask_asym", "shared1"], ["fd_array_blocks", "h0_offdiag"], ["herm_pairs", "biorth"]]
     out = []
     fmts = ["sympy", "dense", "sparse"]
-    grid = [(d, f) for d in DAMAGES for f in fmts]
+    grid = [(d, f) for d in DAMAGES + sorted(STRUCT) for f in fmts]
     rng.shuffle(grid)
     k = 0
     g = 0
@@ -575,6 +758,8 @@ def stream(rng, n):
         u = k % 10
         if u in (0, 1, 2):
             dm, fmt = [], rng.choice(fmts)
+            if rng.random() < 0.35:
+                dm = [rng.choice(sorted(NOTES))]
         elif u == 9:
             dm, fmt = rng.choice(combos), rng.choice(fmts)
         else:
@@ -591,11 +776,11 @@ def stream(rng, n):
 
 
 def summary(v):
-    return "+".join(d["kind"] for d in v["damages"]) or "wellposed"
+    return "+".join(d["kind"] for d in v["damages"]) or ("wellposed:" + v["note"] if v.get("note") else "wellposed")
 
 
 def tie_validate(ctx, ncases=None):
-    n = ncases or ctx.n(120, 1500)
+    n = ncases or ctx.n(220, 2000)
     vs = stream(ctx.rng, n)
     terms, obss, dist, disagreements = [], [], {}, []
     kept = []
